@@ -22,6 +22,9 @@ type Scenario struct {
 	Family        string `json:"family"`
 	// Tags are free-form (generator name, origin of the schedule); copied into the reset event.
 	Origin string `json:"origin"`
+	// Script: strict mode. Every store operation and watch delivery is held until a script step releases it;
+	// after the script the scenario continues under the latency policy until EndUs.
+	Script []SStep `json:"script,omitempty"`
 
 	slowMax int64
 }
@@ -43,10 +46,14 @@ type InstCfg struct {
 	// DemoteDurUs: how long the OnDemote callback takes.
 	DemoteDurUs int64 `json:"demote_dur_us"`
 	// PromoteReturn: the OnPromote callback returns at once instead of blocking on its context.
-	PromoteReturn bool  `json:"promote_return"`
-	NoCallbacks   bool  `json:"no_callbacks"`
-	HUs           int64 `json:"h_us"`
-	TTLUs         int64 `json:"ttl_us"`
+	PromoteReturn bool `json:"promote_return"`
+	NoCallbacks   bool `json:"no_callbacks"`
+	// GateStopMetric: the metrics callback recording the leadership duration inside Stop's critical section (before
+	// the leader flag is cleared) blocks until a release_gate step: a scheduler gate that lets a timer fire while
+	// Stop holds the election's lock.
+	GateStopMetric bool `json:"gate_stop_metric"`
+	HUs              int64 `json:"h_us"`
+	TTLUs            int64 `json:"ttl_us"`
 }
 
 // Match selects a pending operation (or watch delivery) of an instance.
@@ -89,4 +96,19 @@ type Rule struct {
 	Fault   string `json:"fault"` // fail:<class> | timeout | hang | lose_ack | slow:<us> | drop (deliveries)
 	FromNth int    `json:"from_nth"`
 	Count   int    `json:"count"`
+}
+
+// SStep is one step of a strict script (usually derived from a TLC behaviour of Election.tla).
+type SStep struct {
+	Do   string `json:"do"` // start stop stopctx validate disc reconn closed out_del out_put partition heal | apply respond fail lose_ack deliver drop | advance
+	I    string `json:"i,omitempty"`
+	Kind string `json:"kind,omitempty"`
+	Src  string `json:"src,omitempty"`
+	Tok  int    `json:"tok,omitempty"` // interned token of the payload (creates / updates), 0: any
+	Cls  string `json:"cls,omitempty"`
+	ToUs int64  `json:"to,omitempty"`
+	Del  bool   `json:"del,omitempty"`
+	Wait bool   `json:"wait,omitempty"`
+	Vod  bool   `json:"vod,omitempty"`
+	Act  string `json:"act,omitempty"` // name of the model action this step stands for
 }
